@@ -3,4 +3,5 @@ CONSTANTS
   Tier = "quick"
 INVARIANT BasicIndexTotal
 INVARIANT TransposeIsPermutation
+INVARIANT ConcatIsPartition
 CHECK_DEADLOCK FALSE
